@@ -57,6 +57,8 @@ type Server struct {
 	Cmds    int // commands executed (all kinds)
 	Epoch   int // connections dialled in an older epoch are dead (the broker they belonged to crashed)
 	rng     *rand.Rand
+	// ReplyLatMaxUs > 0: every reply becomes readable a seeded 1..ReplyLatMaxUs microseconds after its command
+	ReplyLatMaxUs int
 
 	// faults
 	ErrAt   map[int]bool // command numbers answered with an error reply
@@ -472,12 +474,13 @@ func matchGlob(pat, s string) bool {
 
 // conn is the client side net.Conn handed to redigo.
 type conn struct {
-	s      *Server
-	epoch  int
-	wbuf   []byte
-	rbuf   []byte
-	broken bool
-	closed bool
+	s       *Server
+	readyAt time.Time // the reply of the last flush can be read from this (simulated) moment on
+	epoch   int
+	wbuf    []byte
+	rbuf    []byte
+	broken  bool
+	closed  bool
 }
 
 var errBroken = &net.OpError{Op: "read", Net: "simredis", Err: errors.New("connection reset by peer")}
@@ -525,12 +528,22 @@ func (c *conn) Write(p []byte) (int, error) {
 			continue
 		}
 		c.rbuf = append(c.rbuf, c.s.exec(args, false)...)
+		if c.s.ReplyLatMaxUs > 0 {
+			// the round trip takes simulated time: the caller waits while other tasks go on
+			c.readyAt = time.Now().Add(time.Duration(1+c.s.rng.IntN(c.s.ReplyLatMaxUs)) * time.Microsecond)
+		}
 	}
 	return len(p), nil
 }
 
 //go:norace
 func (c *conn) Read(p []byte) (int, error) {
+	c.s.mu.Lock()
+	wait := time.Until(c.readyAt)
+	c.s.mu.Unlock()
+	if wait > 0 {
+		simrt.Sleep(wait)
+	}
 	c.s.mu.Lock()
 	defer c.s.mu.Unlock()
 	if len(c.rbuf) == 0 {
